@@ -453,6 +453,14 @@ func (j *mulJudge) genCase(r *gen.RNG, i int) (ref.Bits, ref.Bits) {
 				return ref.Encode(sx, a, e1), ref.Encode(sy, b, e2)
 			}
 		}
+	case 15: // the exact product of the two coefficients lands next to an intermediate threshold of the wide pipeline
+		if a, b, ok := r.ProductTargetPair(); ok {
+			j.sh.Cell("gen/product-targeted")
+			if r.Bool() {
+				a, b = b, a
+			}
+			return ref.Encode(sx, a, r.Range(-3000, 3000)), ref.Encode(sy, b, r.Range(-3000, 3000))
+		}
 	case 12: // both wide (256-bit product, 1e19 reduction loop)
 		a := new(big.Int).Sub(ref.Cmax, r.BigBelow(ref.Pow10(r.Range(1, 33))))
 		b := new(big.Int).Sub(ref.Cmax, r.BigBelow(ref.Pow10(r.Range(1, 33))))
